@@ -1,6 +1,7 @@
 import SosModel.Drv.Merkle
 import SosModel.Drv.Log
 import SosModel.Drv.Codec
+import SosModel.Drv.Sync
 open Sos
 
 /-- State threaded through a session (stateful domains add fields here). -/
@@ -11,6 +12,7 @@ def stepLine (st : DrvState) (line : String) : DrvState × String :=
   let toks := (line.trimAscii.toString.splitOn " ").filter (· ≠ "")
   match toks with
   | "merkle" :: rest => (st, Sos.Drv.Merkle.step rest)
+  | "sync" :: rest => (st, Sos.Drv.Sync.step rest)
   | "codec" :: rest => (st, Sos.Drv.Codec.step rest)
   | "log" :: rest =>
     let (l, o) := Sos.Drv.Log.step st.log rest
